@@ -193,6 +193,25 @@ class Ctx:
             result = fn(self, case)
         except Inconclusive:
             raise
+        except Warning as w:
+            # (environment-variant child only - elsewhere warnings are not exceptions.)  A warning that testtools'
+            # own code issues and that, once warnings are errors, escapes into the caller on in-domain input: the
+            # behaviour depends on the state of the warnings filters.  Warnings issued from anywhere else stay what
+            # they are below - a harness problem.
+            tb = traceback.extract_tb(w.__traceback__)
+            inside = [f for f in tb if os.path.abspath(f.filename).startswith(os.path.join(REPO_ROOT, "testtools") + os.sep)]
+            if ENV_VARIANT and inside:
+                self.violation("environment.behaviour-independent-of-the-warnings-filters",
+                               {"escaped": repr(w), "issued in": "%s:%d %s" % (inside[-1].filename, inside[-1].lineno, inside[-1].name),
+                                "traceback": traceback.format_exc(limit=8)})
+                self.count("mon:environment.behaviour-independent-of-the-warnings-filters")
+                result = None
+            else:
+                self.inconclusive.append(f"harness error in {sub}: {traceback.format_exc(limit=6)}")
+                self.count("harness_errors")
+                result = None
+                if len(self.inconclusive) > 20:
+                    raise Inconclusive("too many harness errors; first: " + self.inconclusive[0])
         except Exception:
             # The *harness* crashed (monitors report through ctx.violation).
             # That is not a verdict about testtools.
